@@ -31,8 +31,8 @@ theorem fua_end_bit (h : UInt8) (f l : Bool) :
   cases f <;> cases l <;>
     exact forall_uint8 _ (by decide)
 
-theorem fua_rebuild (h : UInt8) (f l : Bool) (hf : h < 0x80) :
-    (((h &&& 0xe0) ||| 28) &&& 0x60) ||| ((fuFlags f l ||| (h &&& 0x1f)) &&& 0x1f) = h := by
+theorem fua_rebuild (h : UInt8) (f l : Bool) :
+    (((h &&& 0xe0) ||| 28) &&& 0xe0) ||| ((fuFlags f l ||| (h &&& 0x1f)) &&& 0x1f) = h := by
   revert h
   cases f <;> cases l <;>
     exact forall_uint8 _ (by decide)
